@@ -700,6 +700,7 @@ impl Typer {
             if let Some(method_ty) = trait_env.lookup_trait_method(&type_ident, &member_ident) {
                 let inst_method_ty = self.inst_ty(&method_ty);
 
+                let mut inferred_receiver = None;
                 if let tast::Ty::TFunc { params, ret_ty } = &inst_method_ty
                     && !args.is_empty()
                 {
@@ -790,11 +791,17 @@ impl Typer {
                             ty: (**ret_ty).clone(),
                         };
                     }
+                    inferred_receiver = Some(receiver_tast);
                 }
 
                 let mut args_tast = Vec::new();
                 let mut arg_types = Vec::new();
-                for arg in args.iter() {
+                let already_inferred = usize::from(inferred_receiver.is_some());
+                if let Some(receiver_tast) = inferred_receiver {
+                    arg_types.push(receiver_tast.get_ty());
+                    args_tast.push(receiver_tast);
+                }
+                for arg in args.iter().skip(already_inferred) {
                     let arg_tast = self.infer_expr(genv, local_env, diagnostics, *arg);
                     arg_types.push(arg_tast.get_ty());
                     args_tast.push(arg_tast);
